@@ -34,6 +34,88 @@ Proof.
     intros x Hx. apply filter_In in Hx. apply filter_In. split; [apply H|]; tauto.
 Qed.
 
+(** * generic list facts *)
+
+Lemma in_concat_nth : forall (ls : list (list name)) v,
+  In v (concat ls) <-> exists i, i < length ls /\ In v (nth i ls []).
+Proof.
+  induction ls as [|l r IH]; intros v; simpl.
+  - split; [tauto | intros [i [H _]]; lia].
+  - rewrite in_app_iff, IH. split.
+    + intros [H|[i [H1 H2]]]; [exists 0; split; [lia | assumption] | exists (S i); split; [lia | assumption]].
+    + intros [[|i] [H1 H2]]; [left; assumption | right; exists i; split; [lia | assumption]].
+Qed.
+
+Lemma nth_in_concat : forall (ls : list (list name)) i v, In v (nth i ls []) -> In v (concat ls).
+Proof.
+  intros ls i v H. apply in_concat_nth. exists i. split; [|assumption].
+  destruct (Nat.lt_ge_cases i (length ls)); [assumption|].
+  rewrite nth_overflow in H by assumption. contradiction.
+Qed.
+
+Lemma nodup_concat_unique : forall (ls : list (list name)) i j v,
+  NoDup (concat ls) -> In v (nth i ls []) -> In v (nth j ls []) -> i = j.
+Proof.
+  induction ls as [|l r IH]; intros i j v Hn Hi Hj.
+  - destruct i; contradiction.
+  - simpl in Hn. apply NoDup_app_iff in Hn. destruct Hn as [N1 [N2 N3]].
+    destruct i as [|i], j as [|j]; simpl in Hi, Hj.
+    + reflexivity.
+    + exfalso. apply (N3 v Hi). eapply nth_in_concat; eauto.
+    + exfalso. apply (N3 v Hj). eapply nth_in_concat; eauto.
+    + f_equal. eapply IH; eauto.
+Qed.
+
+Lemma forallb_false_witness : forall (p : name -> bool) l,
+  forallb p l = false -> exists x, In x l /\ p x = false.
+Proof.
+  induction l as [|a r IH]; simpl; intros H; [discriminate|].
+  destruct (p a) eqn:E.
+  - destruct (IH H) as [x [H1 H2]]. exists x. auto.
+  - exists a. auto.
+Qed.
+
+Lemma dup_split : forall l : list name, ~ NoDup l ->
+  exists x l1 l2 l3, l = l1 ++ x :: l2 ++ x :: l3.
+Proof.
+  induction l as [|a r IH]; intros H.
+  - exfalso. apply H. constructor.
+  - destruct (in_dec N.eq_dec a r) as [Hin|Hn].
+    + apply in_split in Hin. destruct Hin as [l2 [l3 E]]. exists a, [], l2, l3. simpl. rewrite E. reflexivity.
+    + assert (Hr : ~ NoDup r) by (intros Hr; apply H; constructor; assumption).
+      destruct (IH Hr) as [x [l1 [l2 [l3 E]]]]. exists x, (a :: l1), l2, l3. simpl. rewrite E. reflexivity.
+Qed.
+
+Lemma index_layers_get : forall (ls : list (list name)) base i v,
+  NoDup (concat ls) -> In v (nth i ls []) -> aget 0 (index_layers ls base) v = base + i.
+Proof.
+  induction ls as [|l r IH]; intros base i v Hn Hi.
+  - destruct i; contradiction.
+  - simpl in Hn. apply NoDup_app_iff in Hn. destruct Hn as [N1 [N2 N3]].
+    simpl.
+    assert (G : forall (l0 : list name) rest, In v l0 ->
+                 aget 0 (map (fun v => (v, base)) l0 ++ rest) v = base).
+    { induction l0 as [|a l0 IHl]; simpl; intros rest Hv; [contradiction|].
+      destruct (N.eqb_spec v a); [reflexivity|]. apply IHl. destruct Hv; [congruence | assumption]. }
+    assert (G2 : forall (l0 : list name) rest, ~ In v l0 ->
+                 aget 0 (map (fun v => (v, base)) l0 ++ rest) v = aget 0 rest v).
+    { induction l0 as [|a l0 IHl]; simpl; intros rest Hv; [reflexivity|].
+      destruct (N.eqb_spec v a); [subst; tauto|]. apply IHl. tauto. }
+    destruct i as [|i]; simpl in Hi.
+    + rewrite G by assumption. lia.
+    + rewrite G2.
+      * rewrite (IH (S base) i v N2 Hi). lia.
+      * intros Hv. apply (N3 v Hv). eapply nth_in_concat; eauto.
+Qed.
+
+Lemma nth_app_nil : forall (ls : list (list name)) i, nth i (ls ++ [[]]) [] = nth i ls [].
+Proof.
+  intros. destruct (Nat.lt_ge_cases i (length ls)).
+  - apply app_nth1. assumption.
+  - rewrite app_nth2 by assumption. rewrite (nth_overflow ls) by assumption.
+    destruct (i - length ls) as [|[|d]]; reflexivity.
+Qed.
+
 Section Kahn.
 Variable sh : N -> list name -> list name.
 Hypothesis sh_perm : forall t l, Permutation (sh t l) l.
@@ -154,22 +236,7 @@ Proof.
   - intros H u Hu Hp. apply H. apply P_edge. assumption.
 Qed.
 
-Lemma in_concat_nth : forall (ls : list (list name)) v,
-  In v (concat ls) <-> exists i, i < length ls /\ In v (nth i ls []).
-Proof.
-  induction ls as [|l r IH]; intros v; simpl.
-  - split; [tauto | intros [i [H _]]; lia].
-  - rewrite in_app_iff, IH. split.
-    + intros [H|[i [H1 H2]]]; [exists 0; split; [lia | assumption] | exists (S i); split; [lia | assumption]].
-    + intros [[|i] [H1 H2]]; [left; assumption | right; exists i; split; [lia | assumption]].
-Qed.
 
-Lemma nth_in_concat : forall (ls : list (list name)) i v, In v (nth i ls []) -> In v (concat ls).
-Proof.
-  intros ls i v H. apply in_concat_nth. exists i. split; [|assumption].
-  destruct (Nat.lt_ge_cases i (length ls)); [assumption|].
-  rewrite nth_overflow in H by assumption. contradiction.
-Qed.
 
 Lemma inv_init : inv [] (sh (tk 1 0 0) (sources g)) [].
 Proof.
@@ -313,13 +380,6 @@ Record layered (ls : list (list name)) : Prop := {
   l_nonempty : forall l, In l ls -> l <> [];
 }.
 
-Lemma nth_app_nil : forall (ls : list (list name)) i, nth i (ls ++ [[]]) [] = nth i ls [].
-Proof.
-  intros. destruct (Nat.lt_ge_cases i (length ls)).
-  - apply app_nth1. assumption.
-  - rewrite app_nth2 by assumption. rewrite (nth_overflow ls) by assumption.
-    destruct (i - length ls) as [|[|d]]; reflexivity.
-Qed.
 
 Lemma inv_layered : forall ls nh, inv ls [] nh -> layered ls.
 Proof.
@@ -339,18 +399,6 @@ Qed.
 
 (** ** consequences of [layered] *)
 
-Lemma nodup_concat_unique : forall (ls : list (list name)) i j v,
-  NoDup (concat ls) -> In v (nth i ls []) -> In v (nth j ls []) -> i = j.
-Proof.
-  induction ls as [|l r IH]; intros i j v Hn Hi Hj.
-  - destruct i; contradiction.
-  - simpl in Hn. apply NoDup_app_iff in Hn. destruct Hn as [N1 [N2 N3]].
-    destruct i as [|i], j as [|j]; simpl in Hi, Hj.
-    + reflexivity.
-    + exfalso. apply (N3 v Hi). eapply nth_in_concat; eauto.
-    + exfalso. apply (N3 v Hj). eapply nth_in_concat; eauto.
-    + f_equal. eapply IH; eauto.
-Qed.
 
 Lemma layered_path_before : forall ls, layered ls ->
   forall u v, path g u v -> forall i, In v (nth i ls []) -> exists j, j < i /\ In u (nth j ls []).
@@ -383,14 +431,6 @@ Proof.
   assert (i = j) by (eapply nodup_concat_unique; eauto using l_nodup). lia.
 Qed.
 
-Lemma forallb_false_witness : forall (p : name -> bool) l,
-  forallb p l = false -> exists x, In x l /\ p x = false.
-Proof.
-  induction l as [|a r IH]; simpl; intros H; [discriminate|].
-  destruct (p a) eqn:E.
-  - destruct (IH H) as [x [H1 H2]]. exists x. auto.
-  - exists a. auto.
-Qed.
 
 Lemma left_pred : forall ls, layered ls -> forall v, In v (left_nodes g ls) ->
   exists u, In u (left_nodes g ls) /\ edge g u v.
@@ -408,16 +448,6 @@ Qed.
 
 (** ** a non-empty set in which every node has a predecessor holds a cycle *)
 
-Lemma dup_split : forall l : list name, ~ NoDup l ->
-  exists x l1 l2 l3, l = l1 ++ x :: l2 ++ x :: l3.
-Proof.
-  induction l as [|a r IH]; intros H.
-  - exfalso. apply H. constructor.
-  - destruct (in_dec N.eq_dec a r) as [Hin|Hn].
-    + apply in_split in Hin. destruct Hin as [l2 [l3 E]]. exists a, [], l2, l3. simpl. rewrite E. reflexivity.
-    + assert (Hr : ~ NoDup r) by (intros Hr; apply H; constructor; assumption).
-      destruct (IH Hr) as [x [l1 [l2 [l3 E]]]]. exists x, (a :: l1), l2, l3. simpl. rewrite E. reflexivity.
-Qed.
 
 Lemma back_walk : forall S : list name,
   (forall v, In v S -> exists u, In u S /\ edge g u v) ->
@@ -463,26 +493,5 @@ Qed.
 
 (** ** layer numbers *)
 
-Lemma index_layers_get : forall (ls : list (list name)) base i v,
-  NoDup (concat ls) -> In v (nth i ls []) -> aget 0 (index_layers ls base) v = base + i.
-Proof.
-  induction ls as [|l r IH]; intros base i v Hn Hi.
-  - destruct i; contradiction.
-  - simpl in Hn. apply NoDup_app_iff in Hn. destruct Hn as [N1 [N2 N3]].
-    simpl.
-    assert (G : forall (l0 : list name) rest, In v l0 ->
-                 aget 0 (map (fun v => (v, base)) l0 ++ rest) v = base).
-    { induction l0 as [|a l0 IHl]; simpl; intros rest Hv; [contradiction|].
-      destruct (N.eqb_spec v a); [reflexivity|]. apply IHl. destruct Hv; [congruence | assumption]. }
-    assert (G2 : forall (l0 : list name) rest, ~ In v l0 ->
-                 aget 0 (map (fun v => (v, base)) l0 ++ rest) v = aget 0 rest v).
-    { induction l0 as [|a l0 IHl]; simpl; intros rest Hv; [reflexivity|].
-      destruct (N.eqb_spec v a); [subst; tauto|]. apply IHl. tauto. }
-    destruct i as [|i]; simpl in Hi.
-    + rewrite G by assumption. lia.
-    + rewrite G2.
-      * rewrite (IH (S base) i v N2 Hi). lia.
-      * intros Hv. apply (N3 v Hv). eapply nth_in_concat; eauto.
-Qed.
 
 End Kahn.
